@@ -34,10 +34,18 @@ class Registry(object):
 
     def snapshot(self):
         self.saved = [(_copy_val(getattr(m, n))) for m, n in self.items]
+        # the objects themselves: code under test may rebind the module attribute to a new object (insights.apply_default_enabled
+        # replaces dr.ENABLED by a defaultdict with another default); the original object and its default factory come back
+        self.objects = [getattr(m, n) for m, n in self.items]
+        self.factories = [getattr(o, "default_factory", None) for o in self.objects]
         return self
 
     def restore(self):
-        for (m, n), s in zip(self.items, self.saved):
+        for (m, n), s, orig, fac in zip(self.items, self.saved, self.objects, self.factories):
+            if getattr(m, n) is not orig and isinstance(orig, (dict, set, list)):
+                setattr(m, n, orig)
+            if isinstance(orig, collections.defaultdict) and orig.default_factory is not fac:
+                orig.default_factory = fac
             cur = getattr(m, n)
             s = _copy_val(s)
             if isinstance(cur, dict):
